@@ -1,1 +1,2 @@
 import Proofs.C03
+import Proofs.C20
